@@ -623,10 +623,16 @@ pub struct ChainBox {
 	pub chain: Option<Arc<Chain>>,
 	pub adapter: Arc<RecAdapter>,
 	pub genesis: Block,
+	/// archive mode (Chain::init's flag): compaction prunes the MMRs but keeps every block in the database
+	pub archive: bool,
 }
 
 impl ChainBox {
 	pub fn open(dir: &Path) -> Result<ChainBox, String> {
+		Self::open_mode(dir, false)
+	}
+
+	pub fn open_mode(dir: &Path, archive: bool) -> Result<ChainBox, String> {
 		let adapter = Arc::new(RecAdapter::default());
 		let genesis = genesis_block();
 		let chain = Chain::init(
@@ -634,7 +640,7 @@ impl ChainBox {
 			adapter.clone(),
 			genesis.clone(),
 			pow::verify_size,
-			false,
+			archive,
 			None,
 		)
 		.map_err(|e| format!("Chain::init: {:?}", e))?;
@@ -643,6 +649,7 @@ impl ChainBox {
 			chain: Some(Arc::new(chain)),
 			adapter,
 			genesis,
+			archive,
 		})
 	}
 
@@ -663,7 +670,7 @@ impl ChainBox {
 			self.adapter.clone(),
 			self.genesis.clone(),
 			pow::verify_size,
-			false,
+			self.archive,
 			None,
 		)
 		.map_err(|e| format!("Chain::init on reopen: {:?}", e))?;
